@@ -105,3 +105,8 @@ Definition run_query (c : case) (q : query) : sx :=
 Definition run09 (c : case) : sx :=
   L [ sx_bool (state_wf_b (c_state c));
       L (map (run_query c) (c_queries c)) ].
+
+(* a history on ONE tree object: query, mutate, query again ... — every phase is
+   a case of its own (the state observed at that moment, the model is a pure
+   function of it); the observation is the list of the phases' observations *)
+Definition run09s (cs : list case) : sx := L (map run09 cs).
